@@ -10,7 +10,7 @@ real StatusPrinter / LinePrinter (harness/run_status.cc), on Status call sequenc
   from_engine(hists, traces)  the `st ...` lines of real engine traces (enginecheck) as sequences
   compare(scripts)            -> (mismatch list, statistics); runs impl, feeds its time-placeholder
                               probes to the model, compares stdout bytes, stderr bytes, Fatal
-  valid(script)               the validity predicate of the theorems (StatusProofs.valid_calls)
+  valid(script)               a sequence Builder::Build() can make;  in_theorem_domain(script): accepted by StatusProofs.parse
   python3 tools/statusmodel.py selftest [n] [seed]      generate, compare, report
   python3 tools/statusmodel.py elide|strip [n] [seed]   bulk comparison of ElideMiddleInPlace / StripAnsiEscapeCodes
 
@@ -140,8 +140,8 @@ class Script:
     def text(s): return '\n'.join(s.lines()) + '\n'
 
 def valid(s):
-    """StatusProofs.valid_calls: started edges are not running, finished edges are running, at most one
-    console edge runs at a time, no bare lock calls"""
+    """a call sequence Builder::Build() can make: started edges are not running, finished edges are running, at most
+    one console edge runs at a time (pool depth 1), no bare lock calls"""
     running = set()
     for c in s.calls:
         if c[0] == 'lock': return False
@@ -153,6 +153,21 @@ def valid(s):
             if c[1] not in running: return False
             running.discard(c[1])
     return True
+
+def in_theorem_domain(s):
+    """StatusProofs.parse accepts the sequence (hypothesis of C20_console_parsed): plain* (window plain*)* with
+    window = Started(console edge) ; calls of non-console edges, no BuildFinished/NewLine/lock ; Finished(console edge)"""
+    inwin = False
+    for c in s.calls:
+        con = c[0] in ('started', 'finished') and s.edges[c[1]].console
+        if c[0] == 'lock': return False
+        if not inwin:
+            if c[0] == 'started' and con: inwin = True
+            elif c[0] == 'finished' and con: return False
+        else:
+            if c[0] == 'finished' and con: inwin = False
+            elif con or c[0] in ('buildfinished', 'newline'): return False
+    return not inwin
 
 # ------------------------------------------------------------------------------ generators
 ESC = b'\x1b'
@@ -369,6 +384,7 @@ def compare(scripts, flavor='plain', model_run=None, chunk=200, workers=8):
         st['tty' if s.tty else 'dumb'] += 1
         st['verb%d' % s.verb] += 1
         if valid(s): st['valid'] += 1
+        if in_theorem_domain(s) and not s.tty and s.verb != 0 and irc == 0: st['in_domain_of_C20_console_parsed'] += 1
         if irc == 1: st['fatal'] += 1
         if any(e.console for e in s.edges) and any(c[0] == 'started' and s.edges[c[1]].console for c in s.calls): st['with_console_edge'] += 1
         if any(c[0] == 'finished' and c[2] != 0 for c in s.calls): st['with_failure'] += 1
